@@ -258,7 +258,7 @@ func (e *env) judge(sc *scene, c cfg, tag string) outcome {
 		r.Distinct(tag + "|" + c.key())
 	}
 	r.SampleEvery(int(e.caseNo.Add(1)), 20011, func() any {
-		return map[string]any{"part": tag, "config": c, "comments": sc.Src.Comments, "selected_rules": len(sel), "reported": len(obs.Anns), "suppressed_by_model": len(reasons)}
+		return map[string]any{"part": tag[:1], "config": c, "comments": sc.Src.Comments, "selected_rules": len(sel), "reported": len(obs.Anns), "suppressed_by_model": len(reasons)}
 	})
 	return out
 }
@@ -787,12 +787,12 @@ func partC(e *env, versions []string) {
 				res := map[string]outcome{}
 				for _, allow := range allows {
 					c := cfg{Version: v, Type: "lint", Use: use, AllowComments: allow}
-					res[allow] = e.judge(sc, c, "C")
+					res[allow] = e.judge(sc, c, "C|"+vr.placement+"|"+vr.text+"|"+vr.style)
 				}
 				// one configuration where the comment meets ignore_only and except
 				c := cfg{Version: v, Type: "lint", Use: lintPlanted, Except: []string{"ENUM_PASCAL_CASE"}, AllowComments: "on",
 					IgnoreOnly: []kv{{ID: "COMMENT_ENUM", Paths: []string{"b"}}}}
-				e.judge(sc, c, "C")
+				e.judge(sc, c, "C|"+vr.placement+"|"+vr.text+"|"+vr.style)
 				// clause coverage and monotonicity of the comment suppression (allow on vs off, same image)
 				on, off := res["on"], res["off"]
 				if on.ObsSet != nil && off.ObsSet != nil {
